@@ -1,18 +1,6 @@
-# Texts for MANIFEST.json (per property) — kept beside props.py.
-PENDING = "check under construction in this session; will be claimed once its theorem file and correspondence driver are committed"
-
-TEXT = {
- "C11": dict(
-  design_ref="DESIGN.md §6 C11",
-  level="Theorems (coq/props/C11.v) over ALL e-mails, rule lists and case-folding functions: address rule = exact folded equality; "
-        "domain rule = equality with the part after the LAST '@' (no look-alike suffix); empty e-mail / empty rule set admit nobody; "
-        "login admission = documented any-of disjunction. The clause 'same verdict at login and later' is proved FALSE of the faithful model "
-        "(refutation theorems; known findings C11-K1/K2) and proved for single-kind policies. The model is tied to the code on every run by "
-        "running the real validators and the real proxy (proxy.New from generated YAML) on generated cases, judged by a Gallina monitor in coqc.",
-  note="Trusted: Coq kernel + vm_compute; the hand-written model of validators/gates (correspondence is differential testing); strings.ToLower as an oracle; "
-       "fake authenticator answers. No axioms (Print Assumptions closed).",
-  technique="Rocq proof (string lemmas by induction, iff-characterisations) + differential correspondence judged in Coq"),
-}
-
+# Texts for MANIFEST.json come from registry/Cxx.json ("manifest" key).
+from props import PROPS
+PENDING = "check under construction; will be claimed once its theorem file and correspondence driver are committed"
+TEXT = {pid: p["manifest"] for pid, p in PROPS.items()}
 ALL = ["C%02d" % i for i in range(1, 21)]
 NOT_APPLICABLE = [{"property_id": p, "reason": PENDING} for p in ALL if p not in TEXT]
